@@ -23,12 +23,12 @@ def tla_seq(xs):
 
 
 def supported_pack(pack) -> bool:
-    """The pack shape Search.tla models: plain strategies only, no inferral strategies, no symmetries, one expansion set."""
+    """The pack shape Search.tla models: plain strategies only (no factories), one expansion set, recursive (not iterative)."""
     from comb_spec_searcher.strategies.strategy import AbstractStrategy
 
     strats = list(pack.initial_strats) + [x for st in pack.expansion_strats for x in st] + list(pack.ver_strats)
-    return (not pack.inferral_strats and not pack.symmetries and len(pack.expansion_strats) == 1 and not pack.iterative
-            and all(isinstance(x, AbstractStrategy) for x in strats))
+    strats += list(pack.inferral_strats) + list(pack.symmetries)
+    return len(pack.expansion_strats) == 1 and not pack.iterative and all(isinstance(x, AbstractStrategy) for x in strats)
 
 
 def extract(session) -> Dict:
@@ -53,21 +53,24 @@ def extract(session) -> Dict:
             return None
         rule = st(c)
         return {"ch": [cid(x) for x in k], "pe": st.possibly_empty, "ip": st.ignore_parent, "wk": st.workable, "tw": st.is_two_way(c),
-                "sh": [int(x) for x in rule.shifts()]}
+                "sh": [int(x) for x in rule.shifts()], "nf": st.inferrable}
 
     init_strats = list(pack.initial_strats)
     exp_strats = list(pack.expansion_strats[0])
-    initial, expand = {}, {}
-    for c in classes:
-        sl = [slot(st, c) for st in init_strats]
-        if any(x is not None for x in sl):
-            initial[cid(c)] = sl
-        sl = [slot(st, c) for st in exp_strats]
-        if any(x is not None for x in sl):
-            expand[cid(c)] = sl
+    inf_strats = list(pack.inferral_strats)
+    sym_strats = list(pack.symmetries)
+    initial, expand, inferral, symm = {}, {}, {}, {}
+    # the children of a rule may be classes the search never labelled (e.g. images under a symmetry of a class that was
+    # never symmetry-expanded): the table is closed under "what the search could touch next", one step
+    for table, strats in ((initial, init_strats), (expand, exp_strats), (inferral, inf_strats), (symm, sym_strats)):
+        for c in classes:
+            sl = [slot(st, c) for st in strats]
+            if any(x is not None for x in sl):
+                table[cid(c)] = sl
     empty = sorted(i for c, i in ids.items() if c.is_empty())
     verified = sorted(i for c, i in ids.items() if not c.is_empty() and any(v.verified(c) for v in pack.ver_strats))
-    return {"start": 0, "empty": empty, "verified": verified, "initial": initial, "expand": expand, "n": len(ids),
+    return {"start": 0, "empty": empty, "verified": verified, "initial": initial, "expand": expand, "inferral": inferral, "symm": symm,
+            "n": len(ids), "ninf": len(inf_strats), "nsym": len(sym_strats),
             "ninit": len(init_strats), "nexp": len(exp_strats), "flavour": "forest" if session.flavour == "forest" else "base"}
 
 
@@ -75,15 +78,18 @@ def universe_tla(u) -> str:
     def rule(r):
         if r is None:
             return "<<>>"
-        return "<<R(%s, %s, %s, %s, %s, %s)>>" % (tla_seq(r["ch"]), tla_bool(r["pe"]), tla_bool(r["ip"]), tla_bool(r["wk"]), tla_bool(r["tw"]), tla_seq(r["sh"]))
+        return "<<R(%s, %s, %s, %s, %s, %s, %s)>>" % (tla_seq(r["ch"]), tla_bool(r["pe"]), tla_bool(r["ip"]), tla_bool(r["wk"]), tla_bool(r["tw"]), tla_seq(r["sh"]),
+                                                     tla_bool(r.get("nf", True)))
 
     def fn(m):
         if not m:
             return "<<>>"
         return "(" + " @@ ".join("%d :> <<%s>>" % (int(k), ", ".join(rule(x) for x in v)) for k, v in sorted(m.items(), key=lambda kv: int(kv[0]))) + ")"
 
-    return "[start |-> 0, empty |-> {%s}, verified |-> {%s}, ninit |-> %d, nexp |-> %d, flavour |-> \"%s\", initial |-> %s, expand |-> %s]" % (
-        ", ".join(map(str, u["empty"])), ", ".join(map(str, u["verified"])), u["ninit"], u["nexp"], u["flavour"], fn(u["initial"]), fn(u["expand"]))
+    return ("[start |-> 0, empty |-> {%s}, verified |-> {%s}, ninf |-> %d, ninit |-> %d, nexp |-> %d, nsym |-> %d, flavour |-> \"%s\", "
+            "inferral |-> %s, symm |-> %s, initial |-> %s, expand |-> %s]") % (
+        ", ".join(map(str, u["empty"])), ", ".join(map(str, u["verified"])), u.get("ninf", 0), u["ninit"], u["nexp"], u.get("nsym", 0), u["flavour"],
+        fn(u.get("inferral", {})), fn(u.get("symm", {})), fn(u["initial"]), fn(u["expand"]))
 
 
 def loop_events(session) -> List[dict]:
@@ -189,7 +195,8 @@ def model_check_universe(run, u, idx, max_checks=5):
     return tlc.run_tlc(wd, "MC_Search", workers=4, timeout=1200, heap="4g")
 
 
-MODEL_PACKS = ["two", "split", "lazy", "trim", "mono"]
+MODEL_PACKS = ["two", "split", "lazy", "trim", "mono", "inf", "sym", "syminf", "merge", "rename", "trimsym", "oneway", "onewaysym", "noinf", "hidden",
+               "trimonly", "trimrename"]
 PATTERNS_Q = [("aa",), ("aba", "bb"), ("ab",), ("aa", "aab"), ("abba",), ("aab", "bba"), ("aa", "bb"), ("b",)]
 PATTERNS_T = PATTERNS_Q + [("aaa",), ("abb", "bab"), ("aabb",), ("abab",), ("a", "aaa"), ("ab", "ba"), ("aaa", "aba", "bb")]
 
@@ -203,14 +210,18 @@ def campaign(run, tier, seed, want_mc=True):
 
     pats = PATTERNS_Q if tier == "quick" else PATTERNS_T
     cfgs = [("", p, "ab", "s0", "plain", fl, sch, True) for p in pats for fl in ("default", "forget") for sch in ("one", "three", "all", "mixed")]
-    # several strategies per class, and the forest flavour (a class may become verified by one of its own earlier packets)
+    # several strategies per class, inferral strategies, symmetries, and the forest flavour (where a class may become verified
+    # by one of its own earlier packets)
+    n = 0
     for pk in MODEL_PACKS:
-        for p in pats[: (5 if tier == "quick" else len(pats))]:
+        for p in pats[: (3 if tier == "quick" else len(pats))]:
             for fl in ("default", "forest"):
                 if fl != "forest" and sc.PACKS[pk].get("lazy"):
                     continue
-                for sch in (("one", "all") if tier == "quick" else ("one", "three", "all", "mixed")):
+                scheds = ("one", "three", "all", "mixed")
+                for sch in ((scheds[n % 4],) if tier == "quick" else scheds):
                     cfgs.append(("", p, "ab", sc.PACK_STATS.get(pk, "s0"), pk, fl, sch, True))
+                n += 1
     cfgs += [("", p, "ab", "s0", "plain", "forest", sch, True) for p in pats for sch in ("one", "all")]
     jobs = pmap(run_model_session, cfgs, procs=16, chunk=1)
     with concurrent.futures.ThreadPoolExecutor(max_workers=12) as ex:
@@ -235,13 +246,18 @@ def campaign(run, tier, seed, want_mc=True):
         seen = {}
         for job in jobs:
             key = json.dumps(job["universe"], sort_keys=True)
-            if key not in seen and ("|default|one" in job["tid"] or "|forest|one" in job["tid"]):
+            if key not in seen and job["tid"].split("|")[5] in ("default", "forest"):
                 seen[key] = job
+        if tier == "quick" and len(seen) > 36:
+            # a deterministic sample: the README-pack universes and every third of the others
+            keys_ = list(seen)
+            keep = [k for k in keys_ if "|plain|" in seen[k]["tid"]] + [k for i, k in enumerate(k for k in keys_ if "|plain|" not in seen[k]["tid"]) if i % 3 == 0]
+            seen = {k: seen[k] for k in keep[:48]}
         with concurrent.futures.ThreadPoolExecutor(max_workers=4) as ex:
             results = list(ex.map(lambda ij: model_check_universe(run, ij[1]["universe"], ij[0], 6 if tier == "quick" else 10), list(enumerate(seen.values()))))
         for job, r in zip(seen.values(), results):
             tlc.require_ok(r, "MC_Search " + job["tid"])
-            run.add_tlc(r, "MC_Search all time-slicings, universe of " + job["tid"].split("|")[1])
+            run.add_tlc(r, "MC_Search all time-slicings, universe of " + "|".join(job["tid"].split("|")[1:6:2]))
             if r.status == "violated":
                 run.tlc_violation(r, "MC_Search/" + job["tid"].split("|")[1])
             nmc += 1
